@@ -264,23 +264,34 @@ func derivesThroughCalls(v ssa.Value, pred func(ssa.Value) bool) bool {
 
 func emptyGuard(b *ssa.BasicBlock, of func(ssa.Value) bool) bool {
 	for _, g := range guardsAt(b) {
-		bo, isB := binop(g.Cond, token.EQL, token.NEQ)
+		bo, isB := g.Cond.(*ssa.BinOp)
 		if !isB {
 			continue
 		}
-		if !(isLenWhere(bo.X, of) || isLenWhere(bo.Y, of)) {
-			continue
-		}
 		var k *ssa.Const
-		if kk, isK := bo.Y.(*ssa.Const); isK {
-			k = kk
-		} else if kk, isK := bo.X.(*ssa.Const); isK {
-			k = kk
+		op := bo.Op
+		switch {
+		case isLenWhere(bo.X, of):
+			k, _ = bo.Y.(*ssa.Const)
+		case isLenWhere(bo.Y, of):
+			k, _ = bo.X.(*ssa.Const)
+			op = map[token.Token]token.Token{token.LSS: token.GTR, token.LEQ: token.GEQ, token.GTR: token.LSS, token.GEQ: token.LEQ, token.EQL: token.EQL, token.NEQ: token.NEQ}[op]
+		default:
+			continue
 		}
 		if k == nil {
 			continue
 		}
-		if kv, isK := constInt(k); isK && kv == 0 && (bo.Op == token.EQL) == g.Branch {
+		kv, isK := constInt(k)
+		if !isK {
+			continue
+		}
+		if !g.Branch {
+			op = map[token.Token]token.Token{token.LSS: token.GEQ, token.LEQ: token.GTR, token.GTR: token.LEQ, token.GEQ: token.LSS, token.EQL: token.NEQ, token.NEQ: token.EQL}[op]
+		}
+		// len op kv holds; does it force len == 0 (len is never negative)?
+		switch {
+		case op == token.EQL && kv == 0, op == token.LEQ && kv == 0, op == token.LSS && kv == 1:
 			return true
 		}
 	}
@@ -623,6 +634,32 @@ func (c *Ctx) renderShapeOf(fn *ssa.Function, isText, isPrefix func(ssa.Value) b
 				}) {
 					sh.lead = true
 				}
+			}
+		}
+	})
+	// a step may live in a helper that is handed the text (splitLines(b)): take the helper's steps as the caller's
+	eachInstr(fn, func(in ssa.Instruction) {
+		call, isC := in.(*ssa.Call)
+		if !isC {
+			return
+		}
+		g := call.Call.StaticCallee()
+		if g == nil || g == fn || g.Blocks == nil || g.Pkg != fn.Pkg {
+			return
+		}
+		for j, a := range call.Call.Args {
+			if !isText(a) || j >= len(g.Params) {
+				continue
+			}
+			jj := j
+			sub := c.renderShapeOf(g, func(v ssa.Value) bool { return isParamN(g, v, jj) }, func(ssa.Value) bool { return false })
+			if sub.split {
+				sh.split = true
+				sh.pos["split"] = sub.pos["split"]
+			}
+			if sub.dropTrailing {
+				sh.dropTrailing = true
+				sh.pos["drop"] = sub.pos["drop"]
 			}
 		}
 	})
